@@ -170,7 +170,12 @@ Section Client.
         else
           let q := mkReq PUT lrepo lep (Some (d_dg d)) None None (Some ct_octet) (Some (d_sz d)) None c in
           let '(s2, r2) := exch s q in
-          (s2, [(q, r2)], if r_status r2 =? 201 then ROk else status_err r2)
+          (s2, [(q, r2)],
+           if r_status r2 =? 201 then
+             (* a well-formed digest reported for the uploaded blob must be the expected one *)
+             if valid_digest (nstr (r_dig r2)) && negb (str_eqb (nstr (r_dig r2)) (d_dg d)) then RErr EOther
+             else ROk
+           else status_err r2)
     end.
 
   Definition blob_push (s : srv) (d : desc) (c : str) : srv * trace * result :=
@@ -230,7 +235,11 @@ Section Client.
             | None =>
                 let '(s2, t2, res) := blob_resolve s1 rs in
                 (s2, (q, r) :: t2,
-                 match res with RDesc d => RDescBytes d (r_body r) | _ => res end)
+                 match res with
+                 | RDesc d => (* the body comes from the GET: its digest header must not contradict *)
+                     if verify_digest r (d_dg d) then RDescBytes d (r_body r) else RErr EOther
+                 | _ => res
+                 end)
             | Some _ =>
                 (s1, [(q, r)],
                  match gen_blob_desc r rf with Some d => RDescBytes d (r_body r) | None => RErr EOther end)
@@ -295,7 +304,10 @@ Section Client.
           | None =>
               let '(s2, t2, res) := man_resolve s1 rs in
               (s2, (q, r) :: t2,
-               match res with RDesc d => RDescBytes d (r_body r) | _ => res end)
+               match res with
+               | RDesc d => if verify_digest r (d_dg d) then RDescBytes d (r_body r) else RErr EOther
+               | _ => res
+               end)
           | Some _ =>
               (s1, [(q, r)],
                match gen_desc r rf false with Some d => RDescBytes d (r_body r) | None => RErr EOther end)
